@@ -126,6 +126,7 @@ func runC05(c *Ctx) {
 	c.checkRefCodonAdvance()
 
 	L.Note("packages analysed: %d (all of /repo), tables evaluated from align/const.go", len(c.P.Pkgs))
+	c.checkErrNotDropped("error-not-dropped", "align")
 }
 
 func (c *Ctx) checkIupacTables() {
@@ -748,110 +749,128 @@ func (c *Ctx) checkRefCodonAllGap() {
 		}
 	}
 	win := codonWindowOf(fn)
-	// comparisons ref[idx[k]] == GAP
-	type cmp struct {
-		bo *ssa.BinOp
-		k  int64
-	}
-	var cmps []cmp
+	loops := naturalLoops(fn)
+	// the translation of the reference codon and the codon loop around it
+	var tr *ssa.Call
 	allInstrs(fn, func(in ssa.Instruction) {
-		bo, ok := in.(*ssa.BinOp)
-		if !ok || bo.Op != token.EQL {
+		call, ok := in.(*ssa.Call)
+		if !ok || tr != nil {
 			return
 		}
-		if k, ok := constInt(bo.Y); !ok || k != gap {
+		callee := call.Common().StaticCallee()
+		if callee == nil || callee.Name() != "translateCodon" || len(call.Common().Args) < 3 {
 			return
 		}
-		u, ok := bo.X.(*ssa.UnOp)
-		if !ok {
-			return
+		for k := 0; k < 3; k++ {
+			u, ok := call.Common().Args[k].(*ssa.UnOp)
+			if !ok || u.Op != token.MUL {
+				return
+			}
+			ia, ok := u.X.(*ssa.IndexAddr)
+			if !ok {
+				return
+			}
+			if pk, ok := win.posOf(ia.Index); !ok || pk != int64(k) {
+				return
+			}
 		}
-		ia, ok := u.X.(*ssa.IndexAddr)
-		if !ok {
-			return
-		}
-		if k, ok := win.posOf(ia.Index); ok {
-			cmps = append(cmps, cmp{bo, k})
-		}
+		tr = call
 	})
-	// the all-gap branch: first block (in dominance order) that is reached through true edges of comparisons with k = 0,1,2
-	found := false
-	for _, b := range fn.Blocks {
-		have := map[int64]bool{}
-		for d := b; d != nil; d = d.Idom() {
-			for _, p := range d.Preds {
-				ifi, ok := p.Instrs[len(p.Instrs)-1].(*ssa.If)
-				if !ok || p.Succs[0] != d || len(d.Preds) != 1 {
-					continue
-				}
-				for _, cm := range cmps {
-					if ifi.Cond == ssa.Value(cm.bo) {
-						have[cm.k] = true
-					}
-				}
-			}
-		}
-		if len(have) == 0 {
-			continue
-		}
-		// is this the block that starts the gap-writing branch? it must not itself end in one of the comparisons
-		if ifi, ok := b.Instrs[len(b.Instrs)-1].(*ssa.If); ok {
-			isCmp := false
-			for _, cm := range cmps {
-				if ifi.Cond == ssa.Value(cm.bo) {
-					isCmp = true
-				}
-			}
-			if isCmp {
-				continue
-			}
-		}
-		// only consider the outermost such block (dominated by all three or missing one)
-		if len(b.Preds) == 1 {
-			pifi, ok := b.Preds[0].Instrs[len(b.Preds[0].Instrs)-1].(*ssa.If)
-			if ok {
-				last := false
-				for _, cm := range cmps {
-					if pifi.Cond == ssa.Value(cm.bo) && b.Preds[0].Succs[0] == b {
-						last = true
-					}
-				}
-				if !last {
-					continue
-				}
-			} else {
-				continue
-			}
-		} else {
-			continue
-		}
-		// b is entered directly on the true edge of the last comparison of a chain: a chain of 3 is the all-gap test;
-		// chains of 1 belong to the skipping loops (`for … ref[idx[k]] == GAP`) and are inside loops
-		if innermostLoopOf(naturalLoops(fn), b) != nil {
-			inner := innermostLoopOf(naturalLoops(fn), b)
-			if inner.Head != nil && len(have) == 1 && inner.Blocks[b] && inner.Head.Dominates(b) {
-				// skipping loop body
-				skip := false
-				for _, bk := range inner.Backs {
-					if bk == b {
-						skip = true
-					}
-				}
-				if skip {
-					continue
-				}
-			}
-		}
-		if len(have) == 1 {
-			continue
-		}
-		found = true
-		ok3 := have[0] && have[1] && have[2]
-		L.Check(ok3, "refcodon-allgap", r.label, "all-gap reference codon test", c.P.Pos(b.Instrs[0].Pos()), "guarded by ref[idx[0]], ref[idx[1]] and ref[idx[2]] == GAP",
-			fmt.Sprintf("the gap-column branch is entered with only positions %v of the codon window tested: a window that still holds a reference nucleotide is emitted as a gap and the rest of the reference is read out of frame", keysInt(have)))
+	if tr == nil {
+		L.Bad("refcodon-allgap", r.label, "all-gap reference codon test", c.P.Pos(fn.Pos()), "the translation of the reference codon translateCodon(ref[p0], ref[p1], ref[p2]) was not found")
+		L.Floor("refcodon-allgap", 1, "one test")
+		return
 	}
-	if !found {
-		L.Bad("refcodon-allgap", r.label, "all-gap reference codon test", c.P.Pos(fn.Pos()), "no branch guarded by comparisons of the reference codon positions with GAP was found")
+	main := innermostLoopOf(loops, tr.Block())
+	if main == nil {
+		L.Bad("refcodon-allgap", r.label, "all-gap reference codon test", c.P.Pos(tr.Pos()), "the reference codon is not translated inside a codon loop")
+		L.Floor("refcodon-allgap", 1, "one test")
+		return
+	}
+	// comparisons ref[p_k] == GAP evaluated once per codon (not the conditions of the skipping loops)
+	type cmp struct {
+		bo    *ssa.BinOp
+		truth bool // the truth value that means "is a gap"
+	}
+	cmps := map[int64][]cmp{}
+	for b := range main.Blocks {
+		if innermostLoopOf(loops, b) != main {
+			continue
+		}
+		for _, in := range b.Instrs {
+			bo, ok := in.(*ssa.BinOp)
+			if !ok || (bo.Op != token.EQL && bo.Op != token.NEQ) {
+				continue
+			}
+			if k, ok := constInt(bo.Y); !ok || k != gap {
+				continue
+			}
+			u, ok := bo.X.(*ssa.UnOp)
+			if !ok {
+				continue
+			}
+			ia, ok := u.X.(*ssa.IndexAddr)
+			if !ok {
+				continue
+			}
+			if k, ok := win.posOf(ia.Index); ok {
+				cmps[k] = append(cmps[k], cmp{bo, bo.Op == token.EQL})
+			}
+		}
+	}
+	bf := computeBranchFacts(fn)
+	testedOn := func(p, b *ssa.BasicBlock) []int64 {
+		var have []int64
+		for k := int64(0); k <= 2; k++ {
+			for _, cm := range cmps[k] {
+				if bf.knownOnEdge(p, b, cm.bo, cm.truth) {
+					have = append(have, k)
+					break
+				}
+			}
+		}
+		return have
+	}
+	// every way round the codon loop that does not translate the reference codon crosses an edge on
+	// which all three positions are known to hold a gap
+	nAll := 0
+	best := []int64{}
+	seenB := map[*ssa.BasicBlock]bool{main.Head: true}
+	work := []*ssa.BasicBlock{main.Head}
+	var leak *ssa.BasicBlock
+	for len(work) > 0 {
+		b := work[0]
+		work = work[1:]
+		for _, s := range b.Succs {
+			if !main.Blocks[s] || s == tr.Block() {
+				continue
+			}
+			have := testedOn(b, s)
+			if len(have) == 3 {
+				nAll++
+				continue
+			}
+			if s == main.Head {
+				leak = b
+				continue
+			}
+			if len(have) > len(best) {
+				best = have
+			}
+			if !seenB[s] {
+				seenB[s] = true
+				work = append(work, s)
+			}
+		}
+	}
+	switch {
+	case leak != nil:
+		L.Bad("refcodon-allgap", r.label, "all-gap reference codon test", c.P.Pos(fn.Pos()),
+			fmt.Sprintf("the codon loop can be completed without translating the reference codon on a path where at most positions %v of the codon window were tested to be gaps: a window that still holds a reference nucleotide is emitted as a gap and the rest of the reference is read out of frame", best))
+	case nAll == 0:
+		L.Bad("refcodon-allgap", r.label, "all-gap reference codon test", c.P.Pos(fn.Pos()), "no branch guarded by comparisons of the three reference codon positions with GAP was found")
+	default:
+		L.OK("refcodon-allgap", r.label, "all-gap reference codon test", c.P.Pos(tr.Pos()), "every iteration that does not translate the reference codon passes a point where ref[p0], ref[p1] and ref[p2] == GAP are all known")
 	}
 	L.Floor("refcodon-allgap", 1, "one test")
 }
